@@ -1253,6 +1253,7 @@ static void run_one_a64(uint64_t seed, uint64_t index, bool verbose) {
   Dumper D(cc, func);
   std::vector<PreNode> pre; std::map<BaseNode*, size_t> idx; DumpResult dr;
   dump_source(D, pre, idx, dr);
+  if (getenv("C05_PRE")) { String sb; FormatOptions fo; for (BaseNode* n = cc.first_node(); n; n = n->next()) { sb.clear(); Formatter::format_node(sb, fo, &cc, n); printf("#pre %s\n", sb.data()); } }
   Error e = cc.run_passes();
   if (e != Error::kOk) { printf("G ra-error %u %s\nE\n", unsigned(e), eh.msg.c_str()); return; }
   if (dr.ok) dump_target(D, pre, idx, dr);
